@@ -342,7 +342,7 @@ def mask_cases(nmax, cs, res):
 VARS = ("pr", "hurs", "prsnratio")
 
 
-def gen_series(rng, var, deb, n, frac_lo, frac_hi, wet_scale=1.0, ties=False):
+def gen_series(rng, var, deb, n, frac_lo, frac_hi, wet_scale=1.0, ties=False, near=None):
     """n values: round(frac_lo*n) beyond the lower threshold, round(frac_hi*n) beyond the upper one, rest strictly
     between the thresholds (moderate, exactly representable values)"""
     k_lo = min(n, int(round(frac_lo * n)))
@@ -356,7 +356,15 @@ def gen_series(rng, var, deb, n, frac_lo, frac_hi, wet_scale=1.0, ties=False):
         ub, ut = deb.upper_bound, deb.upper_threshold
         vals.append(ut if ties else rng.choice([ub, ub, ut, ut, ub - (2.0**-8 if var == "hurs" else 2.0**-14)]))
     for _ in range(n - k_lo - k_hi):
-        if var == "pr":
+        if near:  # between-threshold values close to the lower / upper threshold (a strong signal can push them across)
+            lt_, ut_ = deb.lower_threshold, deb.upper_threshold
+            if var == "pr":
+                v = max(lt_ * 1.05, lt_ * (1.3 + 16 * rng.random()) * wet_scale)
+            else:
+                span = (0.2 if var == "hurs" else 2e-3)
+                d = min((ut_ - lt_) / 2, (0.015 * span + span * rng.random()) * wet_scale)
+                v = lt_ + d if near == "lower" else ut_ - d
+        elif var == "pr":
             v = rng.randint(1, 3200) / 64 * wet_scale
         elif var == "hurs":
             v = min(99.0, max(1.0, rng.randint(64, 99 * 64) / 64 * wet_scale))
@@ -594,80 +602,208 @@ def step6_cases(rng, count, nmax, cs, problems, res):
                "step6-assignment", case, exact(tlist(out_sorted)))
 
 
-# ------------------------------------------------------------------ 6. whole pipeline, month mode
-def month_cases(rng, count, problems, res):
-    """`apply_location(running_window_mode=False)` on daily data of whole years: in every calendar month (= window)
-    the number of outputs exactly at the lower / upper bound is round(n * P) of the raw series' frequencies in that
-    month (steps 2-5 do not change which values are beyond a threshold; detrending is off for these variables).
-    A test of the assembled pipeline, small budget.  (Data of a single month cannot be used: month mode runs all
-    twelve months and an empty month makes `round(size * nan)` raise.)"""
+# ------------------------------------------------------------------ 6. whole pipeline, every dispatch path
+@contextlib.contextmanager
+def recording_windows(calls):
+    """in-process instrumentation: every `_apply_on_window` call with copies of its inputs (taken on entry), its
+    output and the mapped middle values of its step 6"""
+    ISIMIP = _isimip()
+    saved = {k: ISIMIP.__dict__[k] for k in ("_apply_on_window", "_step6_adjust_values_between_thresholds")}
+    f_win, f_mid = saved["_apply_on_window"], saved["_step6_adjust_values_between_thresholds"]
+    cur = {"mids": None}
+
+    def mid(self, *a, **k):
+        out = f_mid(self, *a, **k)
+        if cur["mids"] is not None:
+            cur["mids"].append(np.array(out, dtype=float))
+        return out
+
+    def win(self, obs_hist, cm_hist, cm_future, *a, **k):
+        snap = [np.array(x, dtype=float, copy=True) for x in (obs_hist, cm_hist, cm_future)]
+        cur["mids"] = []
+        out = f_win(self, obs_hist, cm_hist, cm_future, *a, **k)
+        calls.append({"in": snap, "out": np.array(out, dtype=float, copy=True), "mids": cur["mids"]})
+        cur["mids"] = None
+        return out
+
+    try:
+        ISIMIP._apply_on_window = win
+        ISIMIP._step6_adjust_values_between_thresholds = mid
+        yield
+    finally:
+        for k, v in saved.items():
+            setattr(ISIMIP, k, v)
+
+
+def _count_ok(deb, a, b, c, o):
+    """the count clause on one window: inputs a, b, c (obs, cm_hist, cm_future of the window, as the caller gave
+    them) and the window's outputs o -> (ok, info)"""
+    lo, hi = float(deb.lower_bound), float(deb.upper_bound)
+    with warnings.catch_warnings(), np.errstate(all="ignore"):
+        warnings.simplefilter("ignore")
+        exp = expected_counts(deb, a, b, c)
+    (el, Pl), (eu, Pu) = exp["lower"], exp["upper"]
+    got = (int((o == lo).sum()), int((o == hi).sum()))
+    ok = (got[0] + got[1] == c.size) if el + eu > c.size else (got == (el, eu))
+    return ok, {"n": int(c.size), "P_lower": Pl, "P_upper": Pu, "round(n*P_lower)": el, "round(n*P_upper)": eu,
+                "outputs_at_lower_bound": got[0], "outputs_at_upper_bound": got[1]}
+
+
+def _pipeline_times(fi):
     import datetime
 
-    for key in ("month_windows", "month_skipped", "month_guard_excluded"):
+    out = []
+    for start, n in zip(fi["start"], fi["n_days"]):
+        d0 = datetime.date.fromisoformat(start)
+        t = [d0 + datetime.timedelta(days=k) for k in range(n)]
+        if fi.get("doy_range"):
+            a, b = fi["doy_range"]
+            t = [d for d in t if a <= d.timetuple().tm_yday <= b]
+        out.append(np.array(t, dtype=object))
+    return out
+
+
+def _pipeline_run(fi, problems, res):
+    """One end-to-end case.  The count clause is demanded (1) of every `_apply_on_window` call, with P from copies of
+    the call's inputs taken on entry (state shared between the steps), and (2) of the outputs of `apply_location` /
+    serial `apply` / parallel `apply`, with the windows (calendar months, or running windows with length = step on
+    data without year wrap) computed by the harness from the time axes that were passed in and P from the ORIGINAL
+    series.  Guard as everywhere: the mapped middle values (recorded in the serial run) are strictly inside the bounds."""
+    from ibicus.utils import day_of_year
+
+    var, adj, mode = fi["variable"], fi["adjust"], fi["mode"]
+    kw = {"running_window_mode": False} if mode == "month" else {
+        "running_window_mode": True, "running_window_length": fi["window"], "running_window_step_length": fi["window"]}
+    with warnings.catch_warnings():
+        warnings.simplefilter("ignore")
+        deb = (seq_deb(var, adj, **kw) if fi.get("sequence") else
+               _isimip().from_variable(var, bias_correct_frequencies_of_values_beyond_thresholds=bool(adj), **kw))
+    t_o, t_h, t_f = _pipeline_times(fi)
+    obs, cmh, cmf = (np.array(fi[k], dtype=float) for k in ("obs", "cm_hist", "cm_future"))
+    lo, hi = float(deb.lower_bound), float(deb.upper_bound)
+    short = {k: v for k, v in fi.items()}
+
+    def call(path):
+        np.random.seed(fi["numpy_seed"])  # step 4 randomises the values beyond the thresholds
+        with warnings.catch_warnings(), np.errstate(all="ignore"):
+            warnings.simplefilter("ignore")
+            if path == "apply_location":
+                o = deb.apply_location(obs.copy(), cmh.copy(), cmf.copy(), t_o, t_h, t_f)
+            else:
+                o = deb.apply(obs.copy()[:, None, None], cmh.copy()[:, None, None], cmf.copy()[:, None, None], time_obs=t_o,
+                              time_cm_hist=t_h, time_cm_future=t_f, progressbar=False, parallel=(path == "apply-parallel"),
+                              nr_processes=2)[:, 0, 0]
+        return np.asarray(o, dtype=float)
+
+    serial_path = "apply_location" if fi["path"] == "apply_location" else "apply"
+    calls = []
+    with recording_windows(calls):
+        out = call(serial_path)
+    # (1) every window the real code formed
+    guard = True
+    for k, c in enumerate(calls):
+        res.extra["pipeline_window_calls"] = res.extra.get("pipeline_window_calls", 0) + 1
+        if not all(lo < v < hi for m in c["mids"] for v in m.tolist()):
+            guard = False
+            continue
+        ok, info = _count_ok(deb, c["in"][0], c["in"][1], c["in"][2], c["out"])
+        if not ok:
+            problems.append(("_apply_on_window: outputs at the lower/upper bound != round(n * P) of the window's inputs",
+                             {**short, "window_call": k, "window_obs_hist": c["in"][0].tolist(), "window_cm_hist": c["in"][1].tolist(),
+                              "window_cm_future": c["in"][2].tolist(), **info}))
+            return
+    if not guard or not calls:
+        res.extra["pipeline_guard_excluded"] = res.extra.get("pipeline_guard_excluded", 0) + 1
+        return
+    # (2) windows computed by the harness from the time axes that were passed in
+    if mode == "month":
+        mon = [np.array([d.month for d in t]) for t in (t_o, t_h, t_f)]
+        windows = [(f"month {m}", np.where(mon[0] == m)[0], np.where(mon[1] == m)[0], np.where(mon[2] == m)[0]) for m in range(1, 13)]
+    else:
+        with warnings.catch_warnings():
+            warnings.simplefilter("ignore")
+            doy = [day_of_year(t) for t in (t_o, t_h, t_f)]
+            rw = deb.running_window
+            windows = []
+            for c, idx in rw.use(doy[2]):
+                wf = rw.get_indices_vals_in_window(doy[2], c)
+                if set(map(int, idx)) != set(map(int, wf)):
+                    continue  # a window that is larger than what it adjusts: its count is not observable in the output
+                windows.append((f"window centre {int(c)}", rw.get_indices_vals_in_window(doy[0], c),
+                                rw.get_indices_vals_in_window(doy[1], c), np.asarray(idx)))
+    outs = [(serial_path, out)]
+    if fi["path"] == "apply-parallel":
+        outs.append(("apply-parallel", call("apply-parallel")))
+    for path, o_all in outs:
+        for name, io, ih, iff in windows:
+            if min(len(io), len(ih), len(iff)) == 0:
+                continue
+            res.extra["pipeline_windows"] = res.extra.get("pipeline_windows", 0) + 1
+            ok, info = _count_ok(deb, obs[io], cmh[ih], cmf[iff], o_all[iff])
+            res.count(("pipeline", var, adj, mode, path, bool(fi.get("near")), info["round(n*P_lower)"] * 5 // (info["n"] + 1)), True)
+            if not ok:
+                problems.append((f"{path} ({mode} mode): outputs at the lower/upper bound in a window != round(n * P) of the "
+                                 "original series in that window (windows from the time axes passed in)",
+                                 {**short, "dispatch": path, "window": name, **info}))
+                return
+
+
+def pipeline_cases(rng, count, problems, res):
+    """daily series of 2-3 years with a seasonal cycle in the beyond-threshold frequencies, records starting on
+    1 Jan / 1 Apr / 1 Oct / any day, moderate values or values close to a threshold with a strong climate signal in
+    either direction; month mode and running-window mode; apply_location, serial apply, parallel apply."""
+    import datetime
+
+    for key in ("pipeline_runs", "pipeline_skipped"):
         res.extra.setdefault(key, 0)
-
-    def dates(y0, nyears):
-        d0 = datetime.date(y0, 1, 1)
-        return np.array([d0 + datetime.timedelta(days=k) for k in range(365 * nyears)], dtype=object)
-
+    paths = ["apply_location", "apply", "apply-parallel"]
     for i in range(count):
         var = VARS[i % 3]
         adj = 0 if rng.random() < 0.3 else 1
-        seq = i % 2 == 1  # every second run: instance sequence (used before the thresholds were assigned)
-        ties = rng.random() < 0.34
-        try:
-            with warnings.catch_warnings():
-                warnings.simplefilter("ignore")
-                deb = (seq_deb(var, adj, running_window_mode=False) if seq else
-                       _isimip().from_variable(var, running_window_mode=False, bias_correct_frequencies_of_values_beyond_thresholds=bool(adj)))
-        except Exception as ex:  # noqa: BLE001
-            problems.append(("assigning bounds/thresholds to a used debiaser raises " + type(ex).__name__,
-                             {"kind": "sequence", "variable": var, "adjust": adj}))
-            continue
-        if seq:
-            res.extra["month_sequence_runs"] = res.extra.get("month_sequence_runs", 0) + 1
-        t_o, t_h, t_f = dates(1980, rng.randint(2, 3)), dates(1981, rng.randint(2, 3)), dates(2050, rng.randint(2, 3))
+        mode = "window" if i % 4 == 3 else "month"
+        path = paths[(i // 3 + i) % 3]
+        near = rng.choice([None, "lower", "lower", "upper" if var != "pr" else "lower"])
+        ties = near is None and rng.random() < 0.34
+        fi = {"kind": "pipeline", "variable": var, "adjust": adj, "sequence": i % 2 == 1, "mode": mode, "path": path,
+              "near": near, "numpy_seed": rng.randint(0, 2**31 - 1)}
+        starts = []
+        for y0 in (1980, 1981, 2050):
+            md = rng.choice([(1, 1), (10, 1), (4, 1), (rng.randint(1, 12), rng.randint(1, 28))])
+            starts.append(datetime.date(y0, *md).isoformat())
+        fi["start"] = starts
+        fi["n_days"] = [rng.randint(730, 1100) for _ in range(3)]
+        if mode == "window":
+            fi["window"] = rng.choice([31, 45, 61])
+            a = rng.randint(35, 80)
+            fi["doy_range"] = [a, rng.randint(250, 335)]
+        times = _pipeline_times(fi)
+        with warnings.catch_warnings():
+            warnings.simplefilter("ignore")
+            deb = _deb(var, adj)  # bounds / thresholds for the generator
         two = has_ut(deb)
-        fr = [(min(rng.choice(FRACS), 0.6), rng.choice([0.0, 0.05, 0.2, 0.35]) if two else 0.0) for _ in range(3)]
-        obs = gen_series(rng, var, deb, t_o.size, *fr[0], ties=ties)
-        cmh = gen_series(rng, var, deb, t_h.size, *fr[1], wet_scale=rng.choice([1.0, 0.7, 1.3]), ties=ties)
-        cmf = gen_series(rng, var, deb, t_f.size, *fr[2], wet_scale=rng.choice([1.0, 0.8, 1.5]), ties=ties)
-        np.random.seed(rng.randint(0, 2**31 - 1))  # step 4 randomises the values beyond the thresholds
-        rec = {"all_mid": []}
+        phase = rng.random() * 12
+        season = [0.5 - 0.35 * math.cos(2 * math.pi * (m - phase) / 12) for m in range(12)]
+        sig = rng.choice([0.3, 3.0]) if near else rng.choice([0.8, 1.5])
+        sc_h = rng.choice([1.0, 3.0]) if near else rng.choice([0.7, 1.0, 1.3])
+        scales = [1.0, sc_h, sc_h * sig]
+        for name, t, sc in zip(("obs", "cm_hist", "cm_future"), times, scales):
+            base_lo = min(rng.choice(FRACS), 0.6)
+            base_hi = rng.choice([0.0, 0.05, 0.2, 0.3]) if two else 0.0
+            mon = np.array([d.month for d in t])
+            x = np.zeros(t.size)
+            for m in range(1, 13):
+                idx = np.where(mon == m)[0]
+                if idx.size:
+                    x[idx] = gen_series(rng, var, deb, idx.size, min(0.9, base_lo * 2 * season[m - 1]), base_hi,
+                                        wet_scale=sc, ties=ties, near=near)
+            fi[name] = x.tolist()
         try:
-            with warnings.catch_warnings(), np.errstate(all="ignore"):
-                warnings.simplefilter("ignore")
-                with recording(rec):
-                    out = np.asarray(deb.apply_location(obs.copy(), cmh.copy(), cmf.copy(), t_o, t_h, t_f), dtype=float)
+            _pipeline_run(fi, problems, res)
+            res.extra["pipeline_runs"] += 1
         except Exception as ex:  # noqa: BLE001
-            res.extra["month_skipped"] += 1
+            res.extra["pipeline_skipped"] += 1
             if len(res.notes) < 5:
-                res.notes.append(f"month-mode apply_location[{var}] raised {type(ex).__name__}: {str(ex)[:120]}")
-            continue
-        lo, hi = float(deb.lower_bound), float(deb.upper_bound)
-        if len(rec["all_mid"]) != 12 or not all(lo < v < hi for m in rec["all_mid"] for v in m.tolist()):
-            res.extra["month_guard_excluded"] += 1  # a month without mapped values / a mapped value on a bound
-            continue
-        mon = lambda t: np.array([d.month for d in t])  # noqa: E731
-        m_o, m_h, m_f = mon(t_o), mon(t_h), mon(t_f)
-        for m in range(1, 13):
-            a, b, c = obs[m_o == m], cmh[m_h == m], cmf[m_f == m]
-            with warnings.catch_warnings(), np.errstate(all="ignore"):
-                warnings.simplefilter("ignore")
-                exp = expected_counts(deb, a, b, c)
-            (el, Pl), (eu, Pu) = exp["lower"], exp["upper"]
-            o = out[m_f == m]
-            got = (int((o == lo).sum()), int((o == hi).sum()))
-            res.extra["month_windows"] += 1
-            res.count(("month", var, adj, el * 6 // (c.size + 1), eu * 6 // (c.size + 1)), True)
-            ok = (got[0] + got[1] == c.size) if el + eu > c.size else (got == (el, eu))
-            if not ok:
-                problems.append(("apply_location (month mode): outputs at the lower/upper bound in a month != round(n * P)",
-                                 {"kind": "month", "variable": var, "adjust": adj, "month": m, **({"sequence": SEQ_NOTE} if seq else {}),
-                                  "obs_hist": a.tolist(), "cm_hist": b.tolist(),
-                                  "cm_future": c.tolist(), "P_lower": Pl, "P_upper": Pu, "round(n*P_lower)": el, "round(n*P_upper)": eu,
-                                  "outputs_at_lower_bound": got[0], "outputs_at_upper_bound": got[1]}))
-                break
+                res.notes.append(f"pipeline case [{var}, {mode}, {path}] raised {type(ex).__name__}: {str(ex)[:160]}")
 
 
 # ------------------------------------------------------------------ 7. missing values: two encodings of the same data
@@ -861,7 +997,7 @@ def run(tier, res, force_search=False):
         res.tie_broken.append(f"step6 raised in {res.extra['step6_exceptions']} of {runs + res.extra['step6_exceptions']} generated cases")
 
     # assembled pipeline (small budget always; larger when a tie is broken)
-    month_cases(rng, (3 if quick else 30) * (3 if (mismatches or not lean_ok or force_search) else 1), problems, res)
+    pipeline_cases(rng, (12 if quick else 72) * (3 if (mismatches or not lean_ok or force_search) else 1), problems, res)
     masked_cases(rng, 2 if quick else 12, problems, res)
     if (mismatches or not lean_ok) and not problems:  # a tie is broken: widen the failing-input search on the real code
         cs2 = Cases()
@@ -935,14 +1071,8 @@ def replay(data):
               f"round(n*P) = {exp['lower'][0]}/{exp['upper'][0]}")
     elif kind == "masked":
         _masked_run(fi, problems, res)
-    elif kind == "month":
-        # the month's raw series, straight through step6 (obs_future := obs_hist): same counts as in the pipeline
-        deb = seq_deb(fi["variable"], fi["adjust"]) if fi.get("sequence") else _deb(fi["variable"], fi["adjust"])
-        obs, cmh, cmf = (np.array(fi[k], dtype=float) for k in ("obs_hist", "cm_hist", "cm_future"))
-        out, rec, raw, exp = run_step6(deb, obs, obs, cmh, cmf)
-        step6_oracle(fi["variable"], fi["adjust"], deb, obs, obs, cmh, cmf, out, rec, exp, problems, res)
-        print(f"step6[{fi['variable']}] on the month's series: outputs at lower/upper bound = {(out == deb.lower_bound).sum()}/"
-              f"{(out == deb.upper_bound).sum()}, round(n*P) = {exp['lower'][0]}/{exp['upper'][0]}")
+    elif kind == "pipeline":
+        _pipeline_run(fi, problems, res)
     else:
         print("unknown failing-input kind", kind)
         return 2
